@@ -102,7 +102,7 @@ func (s *S) indep() indep {
 	var x indep
 	for _, p := range s.e.Peers() {
 		x.sent += p.DataRecv.Load()
-		x.recvHi += p.DataSent.Load()
+		x.recvHi += p.DataSent.Load() + p.DataSentMaybe.Load()
 	}
 	x.recvEv = s.e.HandlerCalls.Load()
 	for _, c := range s.e.Calls() {
@@ -167,13 +167,27 @@ func (s *S) quiesce(live bool, where string) {
 	// poll (bounded) until the getters agree with the independent counts; a leaked or missed
 	// unit never converges and is reported below
 	var x indep
-	waitFor(2*time.Second, func() bool {
+	tSettle := time.Now()
+	defer func() {
+		if time.Since(tSettle) > time.Second {
+			s.c.Count("slow-settle") // visible in the evidence: a count that trailed by more than 1 s
+		}
+	}()
+	// generous bound: the scripted SECS-I peer has 1 s line timeouts of its own, so after a line
+	// hiccup its count can trail by seconds; a leaked or missed unit never converges at all
+	waitFor(8*time.Second, func() bool {
 		x = s.indep()
 		m := e.Metrics()
 		return m[0] == x.sent && m[1] >= x.recvEv && m[1] <= x.recvHi && m[2] == 0 && m[3] == x.err && m[4] == x.drop && m[5] == x.aerr && m[6] == 0 && m[7] == x.redials
 	})
 	x = s.indep()
-	if !settled {
+	maybe := int64(0)
+	for _, p := range e.Peers() {
+		maybe += p.DataSentMaybe.Load()
+	}
+	if !settled || maybe > 0 {
+		// (maybe > 0: a SECS-I block was written but its ACK never arrived; whether the library
+		// dispatched it is not observable, so the log's D events would be a guess)
 		s.unsettled = true
 		s.c.Count("recv-unsettled")
 	}
